@@ -153,7 +153,10 @@ def gen_history(rng: random.Random, n_sessions=None, fmt=None,
                 for _ in range(ns)]
     return {"structure": st, "splits": splits, "sessions": sessions,
             "name_seed": rng.getrandbits(48),
-            "clock": rng.choice(["monotone", "frozen", "backwards"])}
+            "clock": rng.choice(["monotone", "frozen", "backwards"]),
+            # the caller's script seeds the global `random` with the same
+            # value at the start of every session (every run of an ML script)
+            "reseed": rng.getrandbits(32) if rng.random() < 0.3 else None}
 
 
 # ------------------------------------------------------------------- values
@@ -506,6 +509,8 @@ class HistoryRunner:
         """Runs session k to completion (raises whatever sedpack raises)."""
         ses = self.hist["sessions"][k]
         self.session_no = k
+        if self.hist.get("reseed") is not None:
+            random.seed(self.hist["reseed"])
         if ses.get("reopen") or self.ds is None:
             self.reopen()
         ds = self.ds
